@@ -94,6 +94,19 @@ static std::string obs_ok(const nitro::options::arguments& a, const std::vector<
             r += std::to_string(a.as<long>(o.name));
         }
         if (first) r += ".";
+        // as<long>(name, i) of every multi-option value
+        r += " L=";
+        first = true;
+        for (auto& o : ms)
+        {
+            for (std::size_t k = 0; k < a.count(o.name); k++)
+            {
+                if (!first) r += ",";
+                first = false;
+                r += std::to_string(a.as<long>(o.name, k));
+            }
+        }
+        if (first) r += ".";
     }
     (void)p;
     return r;
@@ -144,12 +157,21 @@ static decl_t read_decl(const std::string& word)
 }
 
 // declares on p everything of d that `have` does not contain yet (by long name)
+// the k-th declaration (counted over all kinds) goes to the default group when k % 3 == 0 and to the named group "g1"/"g2"
+// otherwise: grouping must not influence parsing
+static nitro::options::group& group_for(nitro::options::parser& p, std::size_t k)
+{
+    if (k % 3 == 0) return p.group();
+    return p.group(k % 3 == 1 ? "g1" : "g2", "a group");
+}
+
 static void declare_into(nitro::options::parser& p, const decl_t& d, std::set<std::string>& have)
 {
+    std::size_t k = have.size();
     for (auto& o : d.os)
     {
         if (!have.insert(o.name).second) continue;
-        auto& x = p.option(o.name, "d");
+        auto& x = group_for(p, k++).option(o.name, "d");
         if (o.has_sh) x.short_name(o.sh);
         if (o.has_env) x.env(o.env);
         if (o.has_def) x.default_value(o.def);
@@ -158,7 +180,7 @@ static void declare_into(nitro::options::parser& p, const decl_t& d, std::set<st
     for (auto& o : d.ms)
     {
         if (!have.insert(o.name).second) continue;
-        auto& x = p.multi_option(o.name, "d");
+        auto& x = group_for(p, k++).multi_option(o.name, "d");
         if (o.has_sh) x.short_name(o.sh);
         if (o.has_env) x.env(o.env);
         if (o.has_def) x.default_value(o.def);
@@ -167,7 +189,7 @@ static void declare_into(nitro::options::parser& p, const decl_t& d, std::set<st
     for (auto& o : d.ts)
     {
         if (!have.insert(o.name).second) continue;
-        auto& x = p.toggle(o.name, "d");
+        auto& x = group_for(p, k++).toggle(o.name, "d");
         if (o.has_sh) x.short_name(o.sh);
         if (o.has_env) x.env(o.env);
         x.default_value(o.def);
@@ -328,7 +350,15 @@ static std::string run_case(const std::vector<std::string>& w)
     std::string out;
     try
     {
+        decl_t dd = read_decl(w[1]);
         auto declare = [&](nitro::options::parser& p) {
+            // odd-length case lines declare everything on the parser itself, the others spread the declarations over groups
+            if (w[1].size() % 2 == 1)
+            {
+                std::set<std::string> none;
+                declare_into(p, dd, none);
+                return;
+            }
         for (auto& o : os)
         {
             auto& x = p.option(o.name, "d");
